@@ -344,7 +344,12 @@ func vfPresExec(hist []int, last bool) vfXResult {
 			ps = append(ps, fmt.Sprintf("%s:%v/%v", vfTopicKind(k)+k[len(k)-2:], v.online, v.enabled))
 		}
 		sort.Strings(ps)
-		lt = append(lt, d+fmt.Sprint(ps))
+		// hidden state of the topic's run loop: the user agent it announced last (arms the UA timer)
+		ua := ""
+		if ptr, ok := vsched.Exposed(t, "currentUA").(*string); ok {
+			ua = " ua=" + *ptr
+		}
+		lt = append(lt, d+fmt.Sprint(ps)+ua)
 	}
 	parts = append(parts, strings.Join(lt, ","))
 	for _, obs := range []string{"a1", "a2", "b1"} {
